@@ -79,6 +79,7 @@ type machine struct {
 	expiry    bool
 	corrupted bool
 	reopened  bool
+	lastURL   int // URL index of the last drawn operation (-1: none / reopen)
 }
 
 func (m *machine) harness(format string, args ...any) {
@@ -170,7 +171,7 @@ func (m *machine) doGet(rt *rapid.T, i int, sweep bool) {
 	r := getResult{b, err}
 	key, msg, sk, decodes := m.judge(i, r)
 	if !sweep {
-		m.touched[i] = true
+		m.touched[i], m.lastURL = true, i
 		m.log.Ops = append(m.log.Ops, opLog{Op: "get", URL: i, Result: r.String()})
 		m.fp = append(m.fp, fmt.Sprint("get:", i))
 		m.cls["url="+m.kinds[i]]++
@@ -213,7 +214,9 @@ func (m *machine) doGet(rt *rapid.T, i int, sweep bool) {
 	if key != "" {
 		if sweep {
 			m.log.Ops = append(m.log.Ops, opLog{Op: "sweep-get", URL: i, Result: r.String()})
-			key += ":after-other-op"
+			if m.lastURL != i {
+				key += ":after-op-on-other-url" // the last operation did not name this URL
+			}
 		}
 		m.fail(rt, key, fmt.Sprintf("Get(url[%d]=%q): %s", i, short(m.urls[i]), msg))
 	}
@@ -233,7 +236,7 @@ func (m *machine) set(rt *rapid.T) {
 	m.own(i, st.base, st.delta)
 	prev, had := m.model[i]
 	err := m.cache.Set(ctx, m.urls[i], bundle)
-	m.touched[i] = true
+	m.touched[i], m.lastURL = true, i
 	m.cls["op=set"]++
 	m.cls["url="+m.kinds[i]]++
 	if spec.Delta != nil {
@@ -326,7 +329,7 @@ func (m *machine) corrupt(rt *rapid.T) {
 		delete(m.dirs, hexName(m.urls[i]))
 	}
 	m.model[i] = []state{{kind: "corrupted", file: out, isDir: isDir, ckind: desc}}
-	m.touched[i] = true
+	m.touched[i], m.lastURL = true, i
 	m.corrupted = true
 	m.cls["op=corrupt"]++
 	m.cls["corrupt="+kind]++
@@ -352,7 +355,7 @@ func (m *machine) reopen(rt *rapid.T) {
 		m.harness("NewFileCache(%q) on the existing root failed: %v", root, err)
 	}
 	m.cache = c
-	m.reopened = true
+	m.reopened, m.lastURL = true, -1
 	m.cls["op=reopen"]++
 	m.cls["reopen="+form]++
 	m.log.Ops = append(m.log.Ops, opLog{Op: "reopen", URL: -1, Arg: form})
@@ -415,7 +418,7 @@ func sentinel() ([]byte, []byte) {
 
 func runSequence(t *testing.T, rt *rapid.T, rec *stats.Recorder) {
 	m := &machine{t: t, rec: rec, now: time.Now(), names: map[string]int{}, model: map[int][]state{}, dirs: map[string]bool{},
-		owners: map[[32]byte]owner{}, cls: map[string]int64{}, touched: map[int]bool{}, counter: 10}
+		owners: map[[32]byte]owner{}, cls: map[string]int64{}, touched: map[int]bool{}, counter: 10, lastURL: -1}
 	sder, sentry := sentinel()
 	e, err := buildSandbox(sentry)
 	if e.sandbox != "" {
@@ -514,22 +517,34 @@ func TestC15_StateMachine(t *testing.T) {
 
 const fuzzURL = "http://example.com/fuzz.crl"
 
-// checkEntry writes data as the entry file of fuzzURL under a fresh root and judges Get: it must
-// not panic and returns an error, or a bundle equal to what the harness's own decoder reads
-// from data (and not clearly expired).
-func checkEntry(data []byte, now time.Time) (key, msg, harnessErr string, classes []string) {
+// entryChecker owns one sandbox with one cache root for a whole enumeration / fuzz process
+// (creating directories is by far the most expensive step on this file system, and the check is
+// stateless: the single entry file is rewritten for every input and the root is verified to hold
+// nothing else afterwards).
+type entryChecker struct {
+	sandbox, root, path string
+}
+
+func newEntryChecker() (*entryChecker, error) {
 	sb, err := os.MkdirTemp("", "c15f-")
 	if err != nil {
-		return "", "", "mkdtemp: " + err.Error(), nil
+		return nil, err
 	}
-	defer os.RemoveAll(sb)
 	root := filepath.Join(sb, "cache")
-	c, err := crl.NewFileCache(root)
+	return &entryChecker{sandbox: sb, root: root, path: filepath.Join(root, hexName(fuzzURL))}, nil
+}
+
+func (ec *entryChecker) close() { os.RemoveAll(ec.sandbox) }
+
+// check writes data as the entry file of fuzzURL and judges Get on a new FileCache: it must not
+// panic and returns an error, or a bundle equal to what the harness's own decoder reads from
+// data (and not clearly expired).
+func (ec *entryChecker) check(data []byte, now time.Time) (key, msg, harnessErr string, classes []string) {
+	c, err := crl.NewFileCache(ec.root)
 	if err != nil {
 		return "", "", "NewFileCache: " + err.Error(), nil
 	}
-	path := filepath.Join(root, hexName(fuzzURL))
-	if err := os.WriteFile(path, data, 0o600); err != nil {
+	if err := os.WriteFile(ec.path, data, 0o600); err != nil {
 		return "", "", "write: " + err.Error(), nil
 	}
 	b, gerr := c.Get(ctx, fuzzURL)
@@ -552,9 +567,12 @@ func checkEntry(data []byte, now time.Time) (key, msg, harnessErr string, classe
 		classes = append(classes, "entry=malformed")
 	}
 	if key == "" && harnessErr == "" {
-		// reading must not have touched the file or added anything to the root
-		if after, err := os.ReadFile(path); err == nil && string(after) != string(data) {
+		// reading must not have rewritten the file or added anything to the root
+		if after, err := os.ReadFile(ec.path); err == nil && string(after) != string(data) {
 			key, msg = "C15:get-rewrote-entry", "Get changed the entry file"
+		}
+		if ents, err := os.ReadDir(ec.root); err == nil && len(ents) > 1 {
+			key, msg = "C15:root-contents:get-created-files", fmt.Sprintf("after Get the root holds %d entries", len(ents))
 		}
 	}
 	return key, msg, harnessErr, classes
@@ -594,8 +612,13 @@ type seedCase struct {
 func TestC15_FuzzSeeds(t *testing.T) {
 	rec := stats.New(t, "C15", ruleSeeds)
 	now := time.Now()
+	ec, err := newEntryChecker()
+	if err != nil {
+		t.Fatalf("harness: %v", err)
+	}
+	defer ec.close()
 	run := func(c seedCase) {
-		key, msg, herr, classes := checkEntry(c.File, now)
+		key, msg, herr, classes := ec.check(c.File, now)
 		if herr != "" {
 			t.Fatalf("harness: %s (seed %s, mutation %s)", herr, c.Seed, c.Mutation)
 		}
@@ -620,6 +643,11 @@ func TestC15_FuzzSeeds(t *testing.T) {
 			run(c)
 		}
 	}
+	// quick tier: all single-bit flips for the two fresh seeds, one bit per byte (rotating) for the
+	// others; thorough tier: all bits everywhere
+	allBits := func(name string) bool {
+		return stats.Tier() == "thorough" || name == "fresh-base" || name == "fresh-base+delta"
+	}
 	for _, s := range fuzzSeeds(now) {
 		each(seedCase{s.name, "none", s.data})
 		// truncation at every offset (hence at every structural boundary)
@@ -629,7 +657,9 @@ func TestC15_FuzzSeeds(t *testing.T) {
 		// every single-bit flip
 		for i := range s.data {
 			for b := 0; b < 8; b++ {
-				each(seedCase{s.name, fmt.Sprintf("flip@%d.%d", i, b), flipBit(s.data, i, b)})
+				if allBits(s.name) || b == i%8 {
+					each(seedCase{s.name, fmt.Sprintf("flip@%d.%d", i, b), flipBit(s.data, i, b)})
+				}
 			}
 		}
 		// every single-bit flip of the DER of each CRL (JSON and base64 stay well-formed)
@@ -648,13 +678,15 @@ func TestC15_FuzzSeeds(t *testing.T) {
 			}
 			for i := range der {
 				for b := 0; b < 8; b++ {
-					each(seedCase{s.name, fmt.Sprintf("derflip:%s@%d.%d", v.name, i, b),
-						splice(s.data, v.v0, v.v1, []byte(std.EncodeToString(flipBit(der, i, b))))})
+					if allBits(s.name) || b == i%8 {
+						each(seedCase{s.name, fmt.Sprintf("derflip:%s@%d.%d", v.name, i, b),
+							splice(s.data, v.v0, v.v1, []byte(std.EncodeToString(flipBit(der, i, b))))})
+					}
 				}
 			}
 		}
 	}
-	rec.Exhaustive()
+	rec.Set("single_bit_flips_all_seeds", stats.Tier() == "thorough")
 }
 
 // readCorpusFile reads a Go fuzz corpus file holding one []byte value.
@@ -691,8 +723,13 @@ func FuzzC15_CacheEntry(f *testing.F) {
 		}
 		f.Add(b)
 	}
+	ec, err := newEntryChecker()
+	if err != nil {
+		f.Fatalf("harness: %v", err)
+	}
+	f.Cleanup(ec.close)
 	f.Fuzz(func(t *testing.T, data []byte) {
-		key, msg, herr, _ := checkEntry(data, now)
+		key, msg, herr, _ := ec.check(data, now)
 		if herr != "" {
 			t.Fatalf("harness: %s", herr)
 		}
